@@ -163,6 +163,7 @@ func runRange(c *core.Ctx) []core.Obligation {
 	}
 	obs = append(obs, wrapFree(c)...)
 	obs = append(obs, sentinelBounds(c)...)
+	obs = append(obs, overlapNonEmpty(c))
 	return obs
 }
 
